@@ -496,22 +496,20 @@ EVAL = {"bd": eval_bd, "bdopt": eval_bdopt, "upb": eval_upb, "kingman": eval_kin
         "contained_fresh": eval_contained_fresh, "constrained": eval_constrained, "helper": eval_helper}
 
 
-def cfg_key(kind, cfg, seed):
+def cfg_key(kind, cfg, seed=None):
     def short(v):
         if isinstance(v, dict) and "shape" in v:
             t = mk_species(v)
             return S.newick(t._seed_node)
         return json.dumps(v, sort_keys=True)
-    return "%s|%s|seed=%d" % (kind, "|".join("%s=%s" % (k, short(cfg[k])) for k in sorted(cfg)), seed)
+    k = "%s|%s" % (kind, "|".join("%s=%s" % (k, short(cfg[k])) for k in sorted(cfg)))
+    return k if seed is None else "%s|seed=%d" % (k, seed)
 
 
 def run_block(item):
+    """-> (scope, kind, cfg, key prefix, nontrivial, [(seed, fails)])"""
     scope, kind, cfg, seeds, nontrivial = item
-    out = []
-    for seed in seeds:
-        fails = EVAL[kind](cfg, seed)
-        out.append((scope, cfg_key(kind, cfg, seed), nontrivial, fails, kind, cfg, seed))
-    return out
+    return (scope, kind, cfg, cfg_key(kind, cfg), nontrivial, [(seed, EVAL[kind](cfg, seed)) for seed in seeds])
 
 
 # ----------------------------------------------------------------------------- scopes
@@ -652,11 +650,12 @@ PER_CFG = 1  # witnesses reported per (monitor, parameter setting); further fail
 def t2(ctx):
     items = gen_items(ctx)
     seen, extra = {}, {}
-    for res in pmap(run_block, items, chunksize=2):
-        for scope, key, nontrivial, fails, kind, cfg, seed in res:
+    for scope, kind, cfg, prefix, nontrivial, results in pmap(run_block, items, chunksize=4):
+        for seed, fails in results:
+            key = "%s|seed=%d" % (prefix, seed)
             ctx.case(scope, key, nontrivial=nontrivial, sample=key)
             for mon, detail in fails:
-                k = (mon, json.dumps(cfg, sort_keys=True))
+                k = (mon, prefix)
                 seen[k] = seen.get(k, 0) + 1
                 if seen[k] > PER_CFG:
                     extra[mon] = extra.get(mon, 0) + 1
